@@ -4,12 +4,33 @@ import os
 import sys
 from typing import Any, Dict
 
+from pathlib import PurePath
+
+from jinja2.exceptions import SecurityError
 from jinja2.sandbox import SandboxedEnvironment
 from jinja2 import FileSystemLoader
 
 from sigma.exceptions import SigmaSecurityError
 
 PYSIGMA_ALLOW_VARS_EXECUTION_ENV = "PYSIGMA_ALLOW_VARS_EXECUTION"
+
+
+class SigmaSandboxedEnvironment(SandboxedEnvironment):
+    """
+    Sandbox for query templates. Templates receive live pySigma objects (the rule, the pipeline).
+    They may read them, but calling into the library - e.g. loading another pipeline and passing
+    the opt-in arguments themselves - or calling methods of path objects would allow a pipeline
+    document to grant itself command execution and file access.
+    """
+
+    unsafe_modules = ("sigma", "pathlib", "os", "io", "shutil", "subprocess", "importlib")
+
+    def is_safe_callable(self, obj: Any) -> bool:
+        func = getattr(obj, "__func__", obj)
+        module = (getattr(func, "__module__", None) or "").split(".")[0]
+        if module in self.unsafe_modules or isinstance(getattr(obj, "__self__", None), PurePath):
+            return False
+        return super().is_safe_callable(obj)
 
 
 @dataclass
@@ -47,10 +68,10 @@ class TemplateBase:
 
     def __post_init__(self) -> None:
         if self.path is None:
-            env = SandboxedEnvironment(autoescape=self.autoescape)
+            env = SigmaSandboxedEnvironment(autoescape=self.autoescape)
             self.j2template = env.from_string(self.template)
         else:
-            env = SandboxedEnvironment(
+            env = SigmaSandboxedEnvironment(
                 autoescape=self.autoescape, loader=FileSystemLoader(self.path)
             )
             self.j2template = env.get_template(self.template)
@@ -66,6 +87,13 @@ class TemplateBase:
                 )
             custom_vars = self._load_vars_from_file(self.vars)
             self.j2template.globals.update(custom_vars)
+
+    def render(self, **context: Any) -> str:
+        """Render the template; an operation the sandbox forbids is reported as Sigma security error."""
+        try:
+            return self.j2template.render(**context)
+        except SecurityError as e:
+            raise SigmaSecurityError(f"Template attempted a forbidden operation: {e}") from e
 
     def _vars_execution_allowed(self) -> bool:
         """Check if vars execution is allowed via parameter or environment variable."""
